@@ -23,7 +23,7 @@ PID = 'C12'
 BUDGET = {
     # tier: (in-task, in-task line mode, client cancel, disconnect, systematic bases, max points per base)
     'quick': (300, 200, 160, 120, 3, 170),
-    'thorough': (6000, 5000, 3000, 2500, 10, 1200),
+    'thorough': (1600, 1300, 800, 700, 6, 350),
 }
 
 
